@@ -525,6 +525,12 @@ static void runLayout(vh::Rng &r, const std::vector<int> &parent, int dirIdx, in
         for (Node_SP c : u->getChildren()) printf(" %u", c->id());
         printf("\n");
     }
+    // what the ordering of the c-trees reads, for the subtree rooted at every node: m_depth, m_breadth and
+    // computeIsomString() (compared with Model/TreeLayout.lean `Key`; "s:" keeps an empty string a token)
+    for (auto &u : ns) {
+        Tree tv(G, u);
+        printf("isomv %u %u %u s:%s\n", u->id(), tv.m_depth, tv.m_breadth, tv.computeIsomString().c_str());
+    }
     double nodeSep, rankSep;
     if (sepMode == 0) {
         // documented precondition: rankSep (distance between rank centre lines) >= largest node extent
